@@ -7,7 +7,11 @@ SYMEX: the real Rule pipeline on a symbolic import relation; ONE z3 query per in
 from __future__ import annotations
 
 import itertools
+import json
+import os
 import random
+import subprocess
+import sys
 
 import z3
 
@@ -173,9 +177,32 @@ def instances(tier: str) -> list[dict]:
             out.extend(rnd.sample(imp, min(len(imp), 260)))
             out.extend(rnd.sample(oth, min(len(oth), 12)))
     out.extend(big_instances(tier))
+    # the same verdicts under the interpreter's optimised mode (python -O / PYTHONOPTIMIZE strips assert statements):
+    # the exploration of these instances runs in a `python -O` child process
+    t4 = concrete("T4", "neutral")
+    for verb, direction, exc in SHAPES:
+        for sk, ok in (("named", "named"), ("sub", "named")) if tier == "quick" else (("named", "named"), ("sub", "named"), ("named", "sub")):
+            S = (t4[1],) if sk == "named" else (t4[0],)
+            spec = RuleSpec(verb, direction, exc, sk, S, ok, (t4[2],) if ok == "named" else (t4[0],))
+            if sk == "sub" and ok == "sub":
+                continue
+            out.append({"tree": "T4", "naming": "neutral", "spec": spec.as_json(), "pyopt": True})
+    out.append({"tree": "T4", "naming": "neutral", "spec": RuleSpec("should_not", "import", False, "named", (t4[1],), "named", (), True).as_json(), "pyopt": True})
     for i, inst in enumerate(out):
         inst["cap"] = CAPS[tier]
     return out
+
+
+_CHILD = "import json, sys; from vf.props import c01; r = c01.{fn}(json.loads(sys.argv[1])); print('RESULT ' + json.dumps(r, default=lambda o: sorted(o) if isinstance(o, (set, frozenset)) else str(o)))"
+
+
+def _in_optimised_child(fn: str, arg: dict):
+    """Runs c01.<fn>(arg) in a `python -O` child process (same environment) and returns its JSON result."""
+    p = subprocess.run([sys.executable, "-O", "-c", _CHILD.format(fn=fn), json.dumps(arg)], capture_output=True, text=True, env=dict(os.environ), cwd=os.path.dirname(os.path.dirname(os.path.dirname(os.path.abspath(__file__)))))
+    for ln in p.stdout.splitlines():
+        if ln.startswith("RESULT "):
+            return json.loads(ln[7:])
+    raise RuntimeError(f"python -O child failed: rc={p.returncode} {p.stderr[-400:]}")
 
 
 def big_instances(tier: str) -> list[dict]:
@@ -269,9 +296,19 @@ def concrete_outcome(nodes, spec: RuleSpec, edges):
 
 
 def work(inst: dict) -> dict:
+    if inst.get("pyopt") and not sys.flags.optimize:
+        try:
+            res = _in_optimised_child("work", inst)
+        except Exception as e:  # noqa: BLE001
+            return {"label": f"{inst['tree']}/{inst['naming']} [python -O]", "errors": [str(e)]}
+        res["functions"] = set(res.get("functions", ()))
+        for v in res.get("violations", []):
+            v["pyopt"] = True
+            v["label"] = v.get("label", "") + " [python -O]"
+        return res
     spec = RuleSpec.from_json(inst["spec"])
     nodes = nodes_of(inst)
-    label = f"{inst['tree']}/{inst['naming']}: {spec.label()}"
+    label = f"{inst['tree']}/{inst['naming']}: {spec.label()}" + (" [python -O]" if inst.get("pyopt") else "")
     arch = arch_of(inst, nodes)
     before = solver().stats()
 
@@ -322,6 +359,9 @@ def work(inst: dict) -> dict:
 
 
 def replay_detail(payload: dict):
+    if payload.get("pyopt") and not sys.flags.optimize:
+        ok, text, detail = _in_optimised_child("replay_detail", payload)
+        return ok, text + "  [interpreter run with -O]", detail
     spec = RuleSpec.from_json(payload["spec"])
     nodes = payload["nodes"]
     edges = [tuple(e) for e in payload["edges"]]
@@ -343,8 +383,9 @@ def run(tier: str, only: str | None = None) -> int:
     rep = runner.Report(PROP, tier)
     items = instances(tier)
     if only:
-        items = [i for i in items if only in f"{i['tree']}/{i['naming']}: {RuleSpec.from_json(i['spec']).label()}"]
+        items = [i for i in items if only in f"{i['tree']}/{i['naming']}: {RuleSpec.from_json(i['spec']).label()}" + (" [python -O]" if i.get("pyopt") else "")]
     rep.bounds = {
+        "interpreter_modes": "default; python -O for the T4 single-subject instances (child process)",
         "trees": sorted({i["tree"].split("#")[0] for i in items}),
         "namings": sorted({i["naming"] for i in items}),
         "max_modules": max(len(nodes_of(i)) for i in items) if items else 0,
